@@ -99,8 +99,11 @@ def flow_worker(cfg):
         except Exception as e:
             return dict(label=label, errs=[], rejected=f"{type(e).__name__}: {str(e)[:80]}", n=0)
         data = np.random.RandomState(3).randn(300, d) * np.linspace(0.5, 1.5, d) + 0.3
+        data0 = data.tobytes()
         if cfg["weights"] != "fresh":
             fm.train(data, plot=False)
+            if data.tobytes() != data0:
+                errs.append(("api:training-modifies-the-training-data", ""))
         if cfg["weights"] == "reset_weights":
             fm.reset_model(weights=True)
         elif cfg["weights"] == "reset_permutations":
@@ -111,6 +114,7 @@ def flow_worker(cfg):
         # the mode is whatever the public API leaves behind.
         gsub = grid(d)
         gsub = gsub[:: max(1, len(gsub) // 40)].astype("float64" if f64 else "float32")
+        gsub0_ = gsub.tobytes()
         with np.errstate(all="ignore"):
             if cfg.get("order", "sample-first") == "sample-first":
                 xs_, lps_ = fm.sample_and_log_prob(N=48)
@@ -124,6 +128,8 @@ def flow_worker(cfg):
             _, lpf_ = fm.forward_and_log_prob(gsub)
             lpe2_ = fm.log_prob(xs_)
         n_checks += 4
+        if gsub.tobytes() != gsub0_:
+            errs.append(("api:density-evaluation-modifies-its-input", ""))
         # a flow that contracts strongly (|log density| large) amplifies rounding of the sample
         # through the inverse map: only moderately scaled samples are compared here, the
         # contraction-aware comparison of all points follows below
